@@ -221,6 +221,23 @@ def relations(ctx, quick):
         if sorted(lists["cfiles"] or []) != written_c:
             fails.append({"relation": "--cfiles lists exactly the C/C++ files written (separate directories)",
                           "listed": [os.path.relpath(x, d) for x in (lists["cfiles"] or [])], "written": [os.path.relpath(x, d) for x in written_c]})
+    # libraries whose library-level C header would be empty (everything lives in a class / a namespace): files that are not
+    # written are not listed either
+    for tag, decls in (("classonly", [{"decl": "class Widget", "declarations": [{"decl": "Widget()"}, {"decl": "int size() const"}]}]),
+                       ("nsonly", [{"decl": "namespace inner", "declarations": [{"decl": "int f(int a)"}]}])):
+        lib = {"library": tag, "cxx_header": tag + ".hpp", "options": {"wrap_c": True, "wrap_fortran": True, "wrap_python": False, "wrap_lua": False},
+               "declarations": decls}
+        rc, out, files, lists, d = run_lib(ctx, lib, "cf_" + tag)
+        ctx.count(1, ("cfiles", tag))
+        ctx.hist("rel:file-lists-sparse-library")
+        if rc != 0:
+            fails.append({"relation": "file lists (sparse library)", "library": tag, "what": "run failed", "output": out[-600:]})
+            continue
+        for key, kind in (("cfiles", "c"), ("ffiles", "fortran")):
+            written = sorted(os.path.join(d, f) for f in files if kind_of(f) == kind)
+            if sorted(lists[key] or []) != written:
+                fails.append({"relation": "--%s lists exactly the files written (library %s)" % (key, tag),
+                              "listed": [os.path.relpath(x, d) for x in (lists[key] or [])], "written": [os.path.relpath(x, d) for x in written]})
     # per-declaration overrides
     names = ["plainfn", "dfltfn", "strfn", "tmplfn", "genfn", "grow", "m_tally"]
     todo = [(n, lang) for n in names for lang in ("c", "fortran", "python", "lua")]
